@@ -559,7 +559,7 @@ class Lower:
             self.tmp += 1
             if self.cur_spec.get('hoist_all') and self.loop_depth:
                 self.hoisted.append('%s %s;' % (ct, t))
-                self.hoisted_names.append(t)
+                self.hoisted_names.append((t, tuple(self.loop_id_stack)))
                 self.pre.append('%s = %s;' % (t, x))
             else:
                 self.pre.append('%s %s = %s;' % (ct, t, x))
@@ -654,7 +654,7 @@ class Lower:
                 self.tmp += 1
                 if self.cur_spec.get('hoist_all') and self.loop_depth:
                     self.hoisted.append('%s %s;' % (rt, t))
-                    self.hoisted_names.append(t)
+                    self.hoisted_names.append((t, tuple(self.loop_id_stack)))
                     self.pre.append('%s = %s;' % (t, call))
                 else:
                     self.pre.append('%s %s = %s;' % (rt, t, call))
@@ -774,7 +774,7 @@ class Lower:
                         self.tmp += 1
                         if self.cur_spec.get('hoist_all') and self.loop_depth:
                             self.hoisted.append('%s %s;' % (ct, t))
-                            self.hoisted_names.append(t)
+                            self.hoisted_names.append((t, tuple(self.loop_id_stack)))
                             self.pre.append('%s = %s;' % (t, x))
                         else:
                             self.pre.append('%s %s = %s;' % (ct, t, x))
@@ -1012,7 +1012,11 @@ class Lower:
             t = 'vs_t%d' % self.tmp
             self.tmp += 1
             ct = self.rec_cname[r]
-            self.pre.append('%s %s;' % (ct, t))
+            if self.cur_spec.get('hoist_all') and self.loop_depth:
+                self.hoisted.append('%s %s;' % (ct, t))
+                self.hoisted_names.append((t, tuple(self.loop_id_stack)))
+            else:
+                self.pre.append('%s %s;' % (ct, t))
             argl = ['&' + t] + self.args(cd, ins)
             call = self.emit_call(cname, argl, None)
             if call != '((void)0)':
@@ -1141,11 +1145,13 @@ class Lower:
                 b = self.blk(ins[1], ind + 1)
                 self.scopes.pop()
                 self.loop_depth.pop()
+                self.loop_id_stack.pop()
                 return ln + pad + 'while (1)\n' + lc + pad + '{\n' + pad + '    VS_REACH(%s);\n' % self.reach_label('loop') + pre + \
                     pad + '    if (!(%s)) break;\n' % c + b + pad + '}\n'
             self.loop_depth.append(len(self.scopes))
             b = self.blk(ins[1], ind, reach=True)
             self.loop_depth.pop()
+            self.loop_id_stack.pop()
             return ln + pad + 'while (%s)\n' % c + lc + b
         if k == 'DoStmt':
             ins = self.inner(n)
@@ -1153,6 +1159,7 @@ class Lower:
             self.loop_depth.append(len(self.scopes))
             b = self.blk(ins[0], ind, reach=True)
             self.loop_depth.pop()
+            self.loop_id_stack.pop()
             c = self.cond(ins[1], 'loop')
             return ln + pad + 'do\n' + lc + b + pad + 'while (%s);\n' % c
         if k == 'ForStmt':
@@ -1166,6 +1173,7 @@ class Lower:
             self.loop_depth.append(len(self.scopes))
             b = self.blk(body, ind + 1, reach=True)
             self.loop_depth.pop()
+            self.loop_id_stack.pop()
             tail = self.dtors(ind + 1, 1)
             self.scopes.pop()
             return ln + pad + '{\n' + i_s + pad + '    for (; %s; %s)\n' % (c, i) + lc + b + tail + pad + '}\n'
@@ -1184,6 +1192,7 @@ class Lower:
             dt = self.dtors(ind + 2, 1)
             self.scopes.pop()
             self.loop_depth.pop()
+            self.loop_id_stack.pop()
             s += pad + '    for (; %s; %s)\n' % (c, i) + lc
             s += pad + '    {\n' + pad + '        VS_REACH(%s);\n' % self.reach_label('loop') + lvs + bs + dt + pad + '    }\n' + pad + '}\n'
             self.scopes.pop()
@@ -1323,11 +1332,12 @@ class Lower:
         o = self.loop_ord
         self.loop_ord += 1
         self.loops_seen[self.cur_fn] = self.loop_ord
+        self.loop_id_stack.append(o)
         if lcs is None:
             return ''
         if o >= len(lcs):
             raise Abort('loop %d of %s has no loop contract' % (o, self.cur_q))
-        return ''.join('    ' * ind + l + '\n' for l in contract_lines(lcs[o]))
+        return ''.join('    ' * ind + l + '\n' for l in contract_lines(lcs[o])).replace('$HOISTED', '$HOISTED<%d>' % o)
 
     def decl(self, v, ind):
         pad = '    ' * ind
@@ -1358,7 +1368,7 @@ class Lower:
         declt = '' if hoist else ct + ' '
         if hoist:
             self.hoisted.append('%s %s;' % (ct, nm))
-            self.hoisted_names.append(nm)
+            self.hoisted_names.append((nm, tuple(self.loop_id_stack)))
         if core is not None and core.get('kind') in ('CXXConstructExpr', 'CXXTemporaryObjectExpr'):
             rec = norm_type(core['type'].get('desugaredQualType') or core['type']['qualType'])
             r = self.find_record(rec)
@@ -1461,6 +1471,10 @@ class Lower:
                 if nm in self.captures:
                     ref = '(*cl->%s)' % nm if self.captures[nm] == 'ref' else 'cl->%s' % nm
                 inits.append(self.addr(ref) if mode == 'ref' else ref)
+        if self.cur_spec.get('hoist_all') and self.loop_depth:
+            self.hoisted.append('struct %s %s;' % (cname, v['name']))
+            self.hoisted_names.append((v['name'], tuple(self.loop_id_stack)))
+            return pad + '%s = (struct %s){ %s };\n' % (v['name'], cname, ', '.join(inits))
         return pad + 'struct %s %s = { %s };\n' % (cname, v['name'], ', '.join(inits))
 
     def u_fn_spec(self, q):
@@ -1568,6 +1582,7 @@ class Lower:
         self.after_decl_used = set()
         self.ghost_used = set()
         self.hoisted_names = []
+        self.loop_id_stack = []
         ret, rref, sig = self.signature(d, cname)
         self.cur_ret = ret
         self.ret_is_ref = rref
@@ -1595,9 +1610,11 @@ class Lower:
         if ret == 'void':
             eg = spec.get('exit_ghost')
             body = body[:idx] + ('    ' + eg + '\n' if eg else '') + '    VS_REACH(%s);\n' % self.reach_label('end') + body[idx:]
-        if pre or self.hoisted:
-            body = '{\n' + ''.join('    ' + h + '\n' for h in self.hoisted) + pre + body[2:]
-        body = body.replace('$HOISTED', ', '.join(self.hoisted_names) if self.hoisted_names else 'vs_exc')
+        if pre or self.hoisted or spec.get('prologue'):
+            body = '{\n' + ''.join('    ' + h + '\n' for h in self.hoisted) + ('    ' + spec['prologue'] + '\n' if spec.get('prologue') else '') + pre + body[2:]
+        for lid in set(re.findall(r'\$HOISTED<(\d+)>', body)):
+            names = [n for n, st in self.hoisted_names if int(lid) in st]
+            body = body.replace('$HOISTED<%s>' % lid, ', '.join(names) if names else 'vs_exc')
         self.calls[cname] = self.cur_calls
         for g in spec.get('ghost', []):
             if g not in self.ghost_used:
